@@ -116,7 +116,7 @@ def multivariate_ok(kind):
 
 
 def min_timepoints(kind):
-    return {"boss": 20, "iboss": 16, "cboss": 20, "muse": 20, "itde": 16, "rise": 16}.get(kind, 8)
+    return {"boss": 20, "iboss": 16, "cboss": 20, "muse": 20, "itde": 16, "rise": 20, "stsf": 20}.get(kind, 8)
 
 
 # ----------------------------------------------------------------------------- panel transformers
